@@ -392,6 +392,20 @@ func (w *world) coqStoreParts(chains []uint64) (kh string, peers string) {
 	return hx.CoqList(khs), hx.CoqList(ps)
 }
 
+// khSnapshot renders the stored KeyHeights lists of the given chains (stored order) as a Coq
+// list of (chain, list) pairs.
+func (w *world) khSnapshot(chains []uint64) string {
+	var out []string
+	for _, ch := range chains {
+		var hs []string
+		for _, h := range w.keyHeights(ch) {
+			hs = append(hs, hx.CoqN(uint64(h)))
+		}
+		out = append(out, fmt.Sprintf("(%d, %s)", ch, hx.CoqList(hs)))
+	}
+	return hx.CoqList(out)
+}
+
 // ---------------------------------------------------------------- error classes
 
 // errClass maps VerifyHeader / ProcessHeader / SyncBlockHeader / SyncGenesisHeader errors to the
